@@ -126,10 +126,10 @@ class PathView:
         return self.mem[name]
 
 
-SWITCH_MAX = Fraction(1, 10)      # comparison constants up to this value are series / closed-form switches (per-order thresholds of detail/trig.hpp)
+SWITCH_MAX = Fraction(1, 5)      # comparison constants up to this value are series / closed-form switches (per-order thresholds of detail/trig.hpp)
 
 
-SWITCH_MAX_F = Fraction(2)      # single precision: the per-order thresholds reach 1.75
+SWITCH_MAX_F = Fraction(3)      # single precision: the per-order thresholds reach 1.75
 
 
 def switch_limit(atoms):
